@@ -27,7 +27,7 @@ RELEASE = {"clear", "discard", "remove"}
 
 
 def run(prog: Program, rep: Report, tier: str):
-    rep.rule("R19.1", "re-entrancy guard acquire/release pairing on every normal exit", floor=1)
+    rep.rule("R19.1", "re-entrancy guard acquire/release pairing on every normal and exceptional exit", floor=3)
     rep.rule("R19.2", "slot set = fields (+flags) − inherited; field defaults removed from the class dict", floor=5)
     rep.rule("R19.3", "class rebuilt from metaclass/name/bases/copied dict; __qualname__ propagated", floor=3)
     rep.rule("R19.4", "frozen pickle hook guard and setter", floor=2)
@@ -59,6 +59,30 @@ def run(prog: Program, rep: Report, tier: str):
         if added is not None and not released:
             ok = False
     rep.check(ok and added_any, "R19.1", q, f.loc, "every return path that registers the class in _stack releases it again", "a normal exit leaves the class registered in the module-level _stack: decorating a second class with the same repr raises TypeError", detail="pairing")
+    # ... and on every exceptional exit: between registering the key and the release, the body builds a class and may
+    # warn / raise (a base that is no dataclass, a filter turning the advisory warning into an error, type() refusing the
+    # slots); a key left behind makes the next decoration of an equally named class fail with a bogus metaclass error
+    import ast as _ast
+
+    wnode = f.node
+    body = list(wnode.body)
+
+    def is_stack_call(st, names):
+        return isinstance(st, _ast.Expr) and isinstance(st.value, _ast.Call) and isinstance(st.value.func, _ast.Attribute) and st.value.func.attr in names and isinstance(st.value.func.value, _ast.Name) and st.value.func.value.id == "_stack"
+
+    exc_ok = None
+    for i, st in enumerate(body):
+        if is_stack_call(st, ("add",)):
+            rest = body[i + 1 :]
+            protected = [x for x in rest if isinstance(x, _ast.Try) and any(is_stack_call(y, tuple(RELEASE)) for y in x.finalbody)]
+            unprotected = [x for x in rest if not isinstance(x, _ast.Try) and P._may_raise(x) and not is_stack_call(x, tuple(RELEASE)) and not isinstance(x, _ast.Return)]
+            exc_ok = bool(protected) and not unprotected
+        if isinstance(st, _ast.Try) and any(is_stack_call(y, tuple(RELEASE)) for y in st.finalbody) and any(is_stack_call(y, ("add",)) for y in st.body[:3]):
+            exc_ok = True
+    if exc_ok is None:
+        rep.undecided("R19.1", q, f.loc, "registration of the key not found at statement level", detail="pairing-exceptional")
+    else:
+        rep.check(exc_ok, "R19.1", q, f.loc, "the key is released on exceptional exits too (try/finally around everything after the registration)", "when wrap() raises after registering the class in _stack the key is never released: the next decoration of a class with the same repr is refused with a bogus 'custom metaclass' TypeError until some other decoration succeeds", detail="pairing-exceptional")
     # the guard itself: raise when already present
     guard = any(p.exit[0] == "raise" and any(pol and g[0] == "cmp" and g[1] == "in" and g[3] == STACK for g, pol in p.guards()) for p in paths)
     rep.check(guard, "R19.1", q, f.loc, "re-entry is detected by membership in _stack", "the re-entrancy test is gone", detail="guard")
@@ -163,17 +187,27 @@ def run(prog: Program, rep: Report, tier: str):
             if tm[1] == "and":
                 return False if any(v is False for v in vs) else (None if any(v is None for v in vs) else True)
             return True if any(v is True for v in vs) else (None if any(v is None for v in vs) else False)
-        if op == "cmp" and tm[1] in ("in", "notin") and tm[2][0] == "const" and tm[2][1] in HOOKS and (is_cls_dict(tm[3]) or tm[3] == ("attr", CLS, "__dict__")):
+        def hook_namespace(c):
+            """The class's own namespace, or the namespace of a class taken from its MRO (vars(base) / base.__dict__)."""
+            if is_cls_dict(c) or c == ("attr", CLS, "__dict__"):
+                return True
+            inner = c[2][0] if T.is_call_to(c, "builtins.vars") and len(c[2]) == 1 else (c[1] if c[0] == "attr" and c[2] == "__dict__" else None)
+            return inner is not None and (inner == CLS or T.contains(inner, lambda y: y == ("attr", CLS, "__mro__") or (y[0] == "call" and y[1][0] == "attr" and y[1][1] == CLS and y[1][2] == "mro")))
+
+        if op == "cmp" and tm[1] in ("in", "notin") and tm[2][0] == "const" and tm[2][1] in HOOKS and hook_namespace(tm[3]):
             v = asg[tm[2][1]]
             return v if tm[1] == "in" else not v
         if op == "attr" and tm[2] == "frozen":
             return asg["frozen"]
-        if op == "call" and T.refname(tm[1]) in ("builtins.all", "builtins.any") and len(tm[2]) == 1 and tm[2][0][0] == "comp" and len(tm[2][0][3]) == 1 and not tm[2][0][4]:
+        if op == "call" and T.refname(tm[1]) in ("builtins.all", "builtins.any") and len(tm[2]) == 1 and tm[2][0][0] == "comp" and not tm[2][0][4]:
             c = tm[2][0]
-            items = P.flatten_display(prog, c[3][0][0])
-            if items is None:
+            # the generator over the hook names is expanded; a second generator over the MRO stays symbolic
+            const_gens = [g0 for g0 in c[3] if P.flatten_display(prog, g0[0]) is not None]
+            if len(const_gens) != 1:
                 return None
-            vs = [beval(T.rewrite(c[2], lambda x, it=it: it if x == ("elem", c[3][0][0]) else None), asg) for it in items]
+            src = const_gens[0][0]
+            items = P.flatten_display(prog, src)
+            vs = [beval(T.rewrite(c[2], lambda x, it=it: it if x == ("elem", src) else None), asg) for it in items]
             if T.refname(tm[1]) == "builtins.all":
                 return False if any(v is False for v in vs) else (None if any(v is None for v in vs) else True)
             return True if any(v is True for v in vs) else (None if any(v is None for v in vs) else False)
@@ -209,4 +243,13 @@ def run(prog: Program, rep: Report, tier: str):
         rep.check(good, "R19.4", hf.qualname, hf.loc, "the pickle hook restores slots with object.__setattr__ (frozen classes reject every other setter)", "the pickle hook does not restore slots through object.__setattr__(self, …): for a frozen subclass the inherited frozen __setattr__ raises on copy / pickle", detail="hook-setter")
     except AnalysisError:
         rep.undecided("R19.4", q, f.loc, "pickle hook helper not found", detail="hook-setter")
+    # inherited user hooks count as user hooks: the namespace of the class alone does not show them
+    own_only = False
+    for pth in hook_paths:
+        atoms = [x for g, _ in pth.guards() for x in T.walk(g) if x[0] == "cmp" and x[1] in ("in", "notin") and ((x[2][0] == "const" and x[2][1] in HOOKS) or (x[2][0] == "elem" and x[2][1][0] in ("list", "tuple", "set") and bool(x[2][1][1]) and all(y[0] == "const" and y[1] in HOOKS for y in x[2][1][1])))]
+        own_atoms = [x for x in atoms if is_cls_dict(x[3]) or x[3] == ("attr", CLS, "__dict__")]
+        via_lookup = any(T.contains(g, lambda y: T.is_call_to(y, "builtins.getattr", "builtins.hasattr") and y[2][:1] == (CLS,) and len(y[2]) > 1 and (y[2][1][0] == "elem" or (y[2][1][0] == "const" and y[2][1][1] in HOOKS))) for g, _ in pth.guards())
+        if atoms and len(own_atoms) == len(atoms) and not via_lookup:
+            own_only = True
+    rep.check(bool(hook_paths) and not own_only, "R19.4", q, f.loc, "user pickle hooks are looked for along the MRO", "the 'no user hooks' test reads the class's own namespace only: a frozen class that *inherits* __getstate__/__setstate__ gets the generic __setstate__ planted over the inherited one while the inherited __getstate__ stays in use, and copy / pickle raise", detail="hook-inherited")
     rep.check(ok_hook, "R19.4", q, f.loc, "the pickle hook is installed only for frozen classes without user __getstate__/__setstate__", "the __setstate__ hook is not guarded by frozen ∧ no user-defined __getstate__/__setstate__", detail="hook")
